@@ -167,6 +167,7 @@ class RuleSet:
             k += len(r["strings"])
         self.nstrings = k
         self.noreq = None     # filled from the compiled rules (harness --describe)
+        self.fixed = []       # per string: offset if the compiler marked it STRING_FLAGS_FIXED_OFFSET (only used as "$s at N")
         # rules must be grouped by namespace in increasing order (compiled in that order)
         assert [r["ns"] for r in rules] == sorted(r["ns"] for r in rules)
 
@@ -252,6 +253,7 @@ def describe(harness_bin, rulesets, core):
         f = dict(t.split("=", 1) for t in l.split()[1:])
         assert int(f["nrules"]) == len(rs.rules) and int(f["nstrings"]) == rs.nstrings, (l, rs.source())
         rs.noreq = [c == "1" for c in f["noreq"]]
+        rs.fixed = [None if x == "-" else int(x) for x in f["fixed"].split(",")] if f.get("fixed") else []
 
 
 # ------------------------------------------------------------------------------------------------ inputs and facts
@@ -295,8 +297,10 @@ class Input:
             cands = []
             for si, s in enumerate(strs):
                 o = b.find(s)
+                fx = rs.fixed[si] if si < len(rs.fixed) else None
                 while o >= 0:
-                    cands.append((o, si, len(s)))
+                    if fx is None or fx == base + o:
+                        cands.append((o, si, len(s)))
                     o = b.find(s, o + 1)
             cands.sort()
             blks.append("%d.%d.%d.%s.%s.%s" % (base, p, 1 if a else 0, "-" if ep is None else str(ep), "&".join(mods) or "-",
